@@ -86,18 +86,28 @@ PathSeqs == {<<>>, <<"p">>, <<"p", "q">>}
 Ops ==
   (IF "Poll" \in OpKinds THEN {[k |-> "Poll"]} ELSE {})
   \cup (IF "Scan" \in OpKinds THEN {[k |-> "Scan", full |-> f, anc |-> a] : f \in Fulls, a \in AncVals} ELSE {})
-  \cup (IF "Stage" \in OpKinds THEN {[k |-> "Stage", paths |-> ps] : ps \in PathSeqs} ELSE {})
-  \cup (IF "Supply" \in OpKinds THEN {[k |-> "Supply", paths |-> ps] : ps \in {<<>>, <<"p">>}} ELSE {})
+  \* bad: the files of the batch that the SOURCE of the staging can no longer open when it transmits
+  \cup (IF "Stage" \in OpKinds
+        THEN {[k |-> "Stage", paths |-> ps, bad |-> {}] : ps \in PathSeqs}
+             \cup {[k |-> "Stage", paths |-> <<"p", "q">>, bad |-> {"p"}]}
+        ELSE {})
+  \cup (IF "Supply" \in OpKinds THEN {[k |-> "Supply", paths |-> ps] : ps \in PathSeqs} ELSE {})
   \cup (IF "Trans" \in OpKinds THEN {[k |-> "Trans", to |-> v] : v \in Vals} ELSE {})
 
 Cancellable(k) == k \in {"Poll", "Scan", "Trans"}
+
+\* a transmission stream as it goes onto the wire
+Wire(msgs) ==
+  LET ms == IF Variant = "staleError" THEN StaleErrors(msgs, "") ELSE msgs
+  IN [i \in DOMAIN ms |-> [t |-> "Tx", p |-> ms[i].p, done |-> ms[i].done, err |-> ms[i].err, c |-> ms[i].c]]
+Unwire(m) == [p |-> m.p, done |-> m.done, err |-> m.err, c |-> m.c]
 
 \* the same operations and edits in the vocabulary of the conformance driver
 DriverOp(op) ==
   CASE op.k = "Poll" -> [op |-> "Poll"]
     [] op.k = "Scan" -> [op |-> "Scan", full |-> op.full, cancel |-> FALSE,
                          anc |-> CASE op.anc = "nil" -> "nil" [] op.anc = "A" -> "src" [] OTHER -> "srcmid"]
-    [] op.k = "Stage" -> [op |-> "Stage", empty |-> op.paths = <<>>]
+    [] op.k = "Stage" -> [op |-> "Stage", empty |-> op.paths = <<>>, bad |-> op.bad # {}]
     [] op.k = "Supply" -> [op |-> "Supply", empty |-> op.paths = <<>>]
     [] op.k = "Trans" -> [op |-> "Trans", cancel |-> FALSE]
 EditKind(from, to) ==
@@ -110,7 +120,8 @@ EditKind(from, to) ==
 Reference(e, op) ==
   CASE op.k = "Poll" -> [st |-> e, res |-> [err |-> "", early |-> FALSE]]
     [] op.k = "Scan" -> LScan(Cfg, e, op.full, FALSE)
-    [] op.k = "Stage" -> (LET o == LStage(Cfg, e, op.paths) IN [st |-> LReceiveAll(o.st, o.st.pend), res |-> o.res])
+    [] op.k = "Stage" -> (LET o == LStage(Cfg, e, op.paths) IN
+                          [st |-> LReceiveStream(o.st, TxStream(o.st.pend, op.bad, "src")), res |-> o.res])
     [] op.k = "Supply" -> [st |-> e, res |-> LSupply(e, op.paths)]
     [] op.k = "Trans" -> LTrans(Cfg, e, op.to, FALSE)
 
@@ -257,7 +268,8 @@ CStageResp ==
              IF required = <<>>
              THEN /\ done' = Finished(cl.op, cl.lres, StageRes("", <<>>, <<>>), FALSE)
                   /\ cl' = ClIdle(cl.last, DeadAfter(cl.op, cl.lres, StageRes("", <<>>, <<>>), FALSE))
-             ELSE /\ cl' = [cl EXCEPT !.pc = "feed", !.rem = required, !.acc = StageRes("", required, m.sigs)]
+             ELSE /\ cl' = [cl EXCEPT !.pc = "feed", !.rem = Wire(TxStream(required, cl.op.bad, "src")),
+                                      !.acc = StageRes("", required, m.sigs)]
                   /\ UNCHANGED done
   /\ UNCHANGED <<sv, c2s, epL, epR, nops, nedits, trail>>
 
@@ -268,7 +280,7 @@ CFeed ==
      THEN /\ done' = Finished(cl.op, cl.lres, cl.acc, FALSE)
           /\ cl' = ClIdle(cl.last, DeadAfter(cl.op, cl.lres, cl.acc, FALSE))
           /\ UNCHANGED c2s
-     ELSE /\ c2s' = Append(c2s, [t |-> "Tx", p |-> Head(cl.rem)])
+     ELSE /\ c2s' = Append(c2s, Head(cl.rem))
           /\ cl' = [cl EXCEPT !.rem = Tail(@)]
           /\ UNCHANGED done
   /\ UNCHANGED <<sv, s2c, epL, epR, mis, nops, nedits, trail>>
@@ -281,12 +293,18 @@ CSupplyRecv ==
           /\ cl' = ClIdle(cl.last, DeadAfter(cl.op, cl.lres, cl.acc, FALSE))
           /\ UNCHANGED <<s2c, mis>>
      ELSE /\ s2c # <<>>
-          /\ LET m == Head(s2c) IN
+          /\ LET m == Head(s2c)
+                 bad == m.t # "Tx" \/ ~TxValid(m)      \* "invalid transmission received"
+                 failed == [err |-> "unable to decode and forward rsync operations", tx |-> cl.acc.tx]
+             IN
              /\ s2c' = Tail(s2c)
              /\ mis' = (mis \/ m.t # "Tx")
-             /\ cl' = [cl EXCEPT !.rem = Tail(@),
-                                 !.acc = [@ EXCEPT !.tx = Append(@, IF m.t = "Tx" THEN m.p ELSE "?")]]
-          /\ UNCHANGED done
+             /\ IF bad
+                THEN /\ done' = Finished(cl.op, cl.lres, failed, FALSE)
+                     /\ cl' = ClIdle(cl.last, TRUE)
+                ELSE /\ cl' = [cl EXCEPT !.rem = IF m.done THEN Tail(@) ELSE @,
+                                         !.acc = [@ EXCEPT !.tx = Append(@, Unwire(m))]]
+                     /\ UNCHANGED done
   /\ UNCHANGED <<sv, c2s, epL, epR, nops, nedits, trail>>
 
 (***************************************************************************)
@@ -364,18 +382,22 @@ SRecvTx ==
   /\ LET m == Head(c2s) IN
      /\ c2s' = Tail(c2s)
      /\ mis' = (mis \/ m.t # "Tx")
-     /\ epR' = IF m.t = "Tx" THEN LReceive(epR, m.p) ELSE epR
-     /\ sv' = IF Len(sv.rem) = 1 THEN SvIdle(FALSE) ELSE [sv EXCEPT !.rem = Tail(@)]
+     /\ IF m.t # "Tx" \/ ~TxValid(m)
+        THEN \* DecodeToReceiver fails ("invalid transmission received"): serveStage, and with it the server, ends
+             /\ epR' = epR /\ sv' = SvIdle(TRUE)
+        ELSE /\ epR' = LReceiveMsg(epR, Unwire(m))
+             /\ sv' = IF epR'.pend = <<>> THEN SvIdle(FALSE) ELSE sv
   /\ UNCHANGED <<cl, s2c, epL, done, nops, nedits, trail>>
 
 SSupply ==
   /\ sv.pc = "serve" /\ sv.req.k = "Supply"
-  /\ sv' = IF sv.req.paths = <<>> THEN SvIdle(FALSE) ELSE [sv EXCEPT !.pc = "sendtx", !.rem = sv.req.paths]
+  /\ sv' = IF sv.req.paths = <<>> THEN SvIdle(FALSE)
+           ELSE [sv EXCEPT !.pc = "sendtx", !.rem = Wire(LSupply(epR, sv.req.paths).tx)]
   /\ UNCHANGED <<cl, c2s, s2c, epL, epR, mis, done, nops, nedits, trail>>
 
 SSendTx ==
   /\ sv.pc = "sendtx"
-  /\ s2c' = Append(s2c, [t |-> "Tx", p |-> <<Head(sv.rem), epR.disk>>])
+  /\ s2c' = Append(s2c, Head(sv.rem))
   /\ sv' = IF Len(sv.rem) = 1 THEN SvIdle(FALSE) ELSE [sv EXCEPT !.rem = Tail(@)]
   /\ UNCHANGED <<cl, c2s, epL, epR, mis, done, nops, nedits, trail>>
 
@@ -392,6 +414,31 @@ Edit(v) ==
   /\ trail' = Append(trail, [op |-> "Edit", kind |-> EditKind(epL.disk, v)])
   /\ UNCHANGED <<cl, sv, c2s, s2c, mis, done, nops>>
 
+\* a file of the (mirrored) roots can no longer be opened: deleted, or replaced by a directory
+Vanish(p) ==
+  /\ BothIdle /\ ~cl.dead /\ nedits < MaxEdits /\ nops < MaxOps /\ p \notin epL.gone /\ "Supply" \in OpKinds
+  /\ epL' = [epL EXCEPT !.gone = @ \cup {p}] /\ epR' = [epR EXCEPT !.gone = @ \cup {p}]
+  /\ nedits' = nedits + 1
+  /\ trail' = Append(trail, [op |-> "Edit", kind |-> "vanish"])
+  /\ UNCHANGED <<cl, sv, c2s, s2c, mis, done, nops>>
+
+\* the server is gone (its serve loop returned and closed the stream): whatever the
+\* client is waiting for ends with a transport error
+EOFRes(op) ==
+  CASE op.k = "Scan" -> ScanErr("unable to receive scan response", FALSE)
+    [] op.k = "Trans" -> TransRes("unable to receive transition response", <<>>, <<>>, FALSE)
+    [] op.k = "Poll" -> [err |-> "unable to receive poll response", early |-> FALSE]
+    [] op.k = "Stage" -> StageRes("unable to receive stage response", <<>>, <<>>)
+    [] op.k = "Supply" -> [err |-> "unable to decode and forward rsync operations", tx |-> cl.acc.tx]
+CRecvEOF ==
+  /\ sv.dead /\ s2c = <<>>
+  /\ \/ cl.pc = "wait" /\ ~cl.respGot
+     \/ cl.pc = "stagewait"
+     \/ cl.pc = "supplyrecv" /\ cl.rem # <<>>
+  /\ done' = Finished(cl.op, cl.lres, EOFRes(cl.op), cl.user)
+  /\ cl' = ClIdle(cl.last, TRUE)
+  /\ UNCHANGED <<sv, c2s, s2c, epL, epR, mis, nops, nedits, trail>>
+
 \* a finished behaviour (explicit, so that TLC's deadlock check flags every
 \* other state without a successor)
 Terminated ==
@@ -404,6 +451,8 @@ Next ==
   \/ CCancel \/ CSendCompl \/ CRecvResp \/ CFinish \/ CStageResp \/ CFeed \/ CSupplyRecv
   \/ SRecvReq \/ SRecvCompl \/ SRespond \/ SDone \/ SStage \/ SRecvTx \/ SSupply \/ SSendTx
   \/ \E v \in Vals : Edit(v)
+  \/ Vanish("p")
+  \/ CRecvEOF
   \/ Terminated
 
 Spec == Init /\ [][Next]_vars
